@@ -155,6 +155,55 @@ def run(tier):
             else:
                 res.violation(key, "remove_signature must remove the key from the map and retain the other witnesses (found %d remove, %d retain)" % (len(rem), len(ret)), where="%s:%s" % (f.file, f.line), rule="R-PROV")
 
+    # (e) the map and the embedded witnesses move together: on every path from the store of the updated signature map to an
+    # accepting return, the witness set of the decoded transaction is written and tx_bytes is re-encoded from it.  (A write-back
+    # that is skipped on some path — e.g. when the last witness was removed — leaves a witness the map no longer lists.)
+    from pv.panic import place_field_steps
+    for f in fns:
+        sig_w, wit_w, bytes_w = [], [], []
+        for bi, si, st in f.statements():
+            if st[0] == "a" and not isinstance(st[1], int):
+                steps = place_field_steps(f, st[1])
+                names = [n for _, n in steps]
+                if names and names[-1] == "signatures":
+                    sig_w.append(bi)
+                if "vkeywitness" in names:
+                    wit_w.append(bi)
+                if names and names[-1] == "tx_bytes":
+                    bytes_w.append(bi)
+        for bi, t in f.calls():
+            d = t.get("dest")
+            if d is not None and not isinstance(d, int):
+                names = [n for _, n in place_field_steps(f, d)]
+                if names and names[-1] == "tx_bytes":
+                    bytes_w.append(bi)
+                if "vkeywitness" in names:
+                    wit_w.append(bi)
+                if names and names[-1] == "signatures":
+                    sig_w.append(bi)
+        oks = [bi for bi, si, rv in flow.aggregates(f, r"^core::result::Result$", variant="Ok")]
+        key = "%s:map-and-bytes-move-together" % f.name
+        if not sig_w or not bytes_w or not wit_w or not oks:
+            res.violation(key, "%s: cannot find the stores of self.signatures (%d), the witness set (%d), self.tx_bytes (%d) or an Ok return (%d)" % (
+                f.name, len(sig_w), len(wit_w), len(bytes_w), len(oks)), where="%s:%s" % (f.file, f.line), rule="R-MPT")
+            continue
+        bad = None
+        for s_ in sig_w:
+            for o in oks:
+                if s_ not in bytes_w and f.can_reach(s_, o, avoid=set(bytes_w)):
+                    bad = "an accepting return is reachable after the signature map was updated without re-encoding tx_bytes"
+                if s_ not in wit_w and f.can_reach(s_, o, avoid=set(wit_w)):
+                    bad = "an accepting return is reachable after the signature map was updated without rewriting the witness set"
+        # the other order: bytes rewritten, map not (the store may come first or last)
+        for b_ in bytes_w:
+            for o in oks:
+                if not any(flow.dominates(f, s_, o) for s_ in sig_w):
+                    bad = "an accepting return is not dominated by the store of the updated signature map"
+        if bad:
+            res.violation(key, "%s: %s: the signature map and the witnesses embedded in tx_bytes get out of step" % (f.name, bad), where="%s:%s" % (f.file, f.line), rule="R-MPT")
+        else:
+            res.ok(key, "R-MPT", "every accepting path stores the map, rewrites the witness set and re-encodes tx_bytes")
+
     # (b) panic census
     table = panic.load_table("panic_C41.json")
     closure, sites, skipped = panic.census(P, fns)
